@@ -23,8 +23,8 @@ LEVEL_TEXT = ('Full: every clause of C14 is a Coq theorem about the executable D
               '(row, col) = (unknown of b, unknown of a). The model is tied to the source by exact integer correspondence on every run.')
 TECHNIQUE = 'Coq proof over a hand-written list/nat/Z model of DofManager (NumPy semantics); exact vm_compute correspondence with the real DofManager'
 GEN = []
-TARGETS = ['model/M_C14_Dof.vo', 'proofs/L_C14.vo']
-COQ_FILES = ['model/M_C14_Dof.v', 'proofs/L_C14.v', 'props/P_C14.v']
+TARGETS = ['model/M_C14_Dof.vo', 'proofs/L_C14.vo', 'model/M_C14_Asm.vo', 'proofs/L_C14_Asm.vo']
+COQ_FILES = ['model/M_C14_Dof.v', 'proofs/L_C14.v', 'model/M_C14_Asm.v', 'proofs/L_C14_Asm.v', 'props/P_C14.v']
 TRUSTED = ['Coq 8.16.1 kernel + vm_compute (no native_compute)',
            'hand-written model of DofManager (NumPy boolean-mask selection / .at[mask].set / integer-array assignment / tile / ravel written as list '
            'recursions); tied to optimism/FunctionSpace.py only by the exact correspondence on seeded random meshes and BC sets',
@@ -37,6 +37,7 @@ RULE = ('every fourth case is followed by a twin on the same mesh whose BC patte
         'sets, sets with repeated nodes, empty node set, random}; a case is non-trivial when 0 < #bc < #dofs or it is one of the named edge '
         'patterns; distinct = distinct (nNodes, dim, connectivity, mask) tuples')
 IMPORTS = ['From OV.model Require Import M_C14_Dof.']
+IMPORTS_ASM = ['From OV.model Require Import M_C14_Dof M_C14_Asm.']
 
 
 # ----------------------------------------------------------------------------- case generation
@@ -232,6 +233,276 @@ def run_impl(case):
     return out
 
 
+# ----------------------------------------------------------------------------- HISTORY stream: several assemblies in ONE process
+#
+# The clause "the sparse-assembly index maps address exactly the unknown-by-unknown entries of every element, each once" is judged on what
+# SparseMatrixAssembler.assemble_sparse_stiffness_matrix DOES with the maps: a history is a sequence of >= 2 assemblies in this process, with
+# different DofManagers of EQUAL sizes (number of unknowns, number of COO triplets, mask shape) but different numbering, and with repeated
+# assemblies through one DofManager.  Every assembled matrix is compared, exactly (integer-valued element matrices), with a dense reference
+# built by hand from the element matrices, the connectivity and the declared (node, component) pairs -- model/M_C14_Asm.v `assemble`
+# (L1, evaluated by Coq) and its Python mirror `reference_matrix` (L2) -- using nothing of the DofManager.
+
+HIST_FAMILIES = ['perm', 'edges', 'clamp', 'transpose', 'perm', 'shift', 'repeat', 'perm_nobc', 'mirror', 'rebuild']
+
+
+def _coords_sets(Nx, Ny, order):
+    """node ids on the four edges of the structured unit-square mesh (any element order), from the coordinates"""
+    import numpy as onp
+    from optimism import Mesh
+    mesh = Mesh.construct_structured_mesh(Nx, Ny, [0.0, 1.0], [0.0, 1.0], elementOrder=order)
+    xy = onp.asarray(mesh.coords)
+    tol = 1e-9
+    pick = lambda m: [int(i) for i in onp.nonzero(m)[0]]
+    return dict(left=pick(xy[:, 0] < tol), right=pick(xy[:, 0] > 1 - tol), bottom=pick(xy[:, 1] < tol), top=pick(xy[:, 1] > 1 - tol),
+                nNodes=int(xy.shape[0]), xy=xy)
+
+
+def _mirror_nodes(cs, nodes):
+    """image of a node list under the reflection x -> 1-x of the structured mesh (a symmetry of the node set)"""
+    import numpy as onp
+    xy = cs['xy']
+    out = []
+    for n in nodes:
+        t = onp.array([1.0 - xy[n, 0], xy[n, 1]])
+        out.append(int(onp.argmin(onp.sum((xy - t) ** 2, axis=1))))
+    return out
+
+
+def gen_histories(ctx):
+    """-> list of history cases dict(stream='history', family, steps=[step]); a step is a `build` case with an explicit BC pattern, a seed
+    for its integer element matrices (`kseed`) and optionally `reuse` = index of the earlier step whose DofManager OBJECT is used again."""
+    r = ctx.rng('history')
+    n = ctx.n(10, 90)
+    hists = []
+    for i in range(n):
+        fam = HIST_FAMILIES[i % len(HIST_FAMILIES)]
+        ks = lambda: r.randrange(1 << 30)
+        steps = []
+        if fam in ('perm', 'perm_nobc'):
+            npe = r.choice([3, 3, 6])
+            dim = r.choice([1, 2, 2, 3]) if npe == 3 else r.choice([1, 2])
+            nNodes = r.randrange(max(3, npe), 13)
+            nEl = r.randrange(1, 6)
+            conns = [r.sample(range(nNodes), npe) if r.random() < 0.85 else [r.randrange(nNodes) for _ in range(npe)] for _ in range(nEl)]
+            pat = [] if fam == 'perm_nobc' else _bc_pattern(r, nNodes, dim, r.choice(['single', 'overlap', 'repeated', 'random', 'random']))
+            pi = list(range(nNodes))
+            while pi == list(range(nNodes)):
+                r.shuffle(pi)
+            A = dict(src='random', nNodes=nNodes, conns=conns, dim=dim, ebcs=pat)
+            # the SAME abstract problem under another node numbering: every size agrees, the index maps do not
+            B = dict(src='random', nNodes=nNodes, conns=[[pi[x] for x in row] for row in conns], dim=dim,
+                     ebcs=[([pi[x] for x in nodes], comp) for (nodes, comp) in pat])
+            steps = [dict(A, kseed=ks()), dict(B, kseed=ks()), dict(A, kseed=ks(), reuse=0), dict(B, kseed=ks(), reuse=1)]
+        elif fam in ('edges', 'clamp', 'mirror', 'shift', 'repeat', 'rebuild'):
+            order = r.choice([1, 1, 2])
+            Nx, Ny = (r.randrange(2, 5), r.randrange(2, 5)) if order == 1 else (r.randrange(2, 4), 2)
+            dim = 2 if fam in ('edges', 'clamp') else r.choice([1, 2, 2, 3] if order == 1 else [1, 2])
+            cs = _coords_sets(Nx, Ny, order)
+            base = dict(src='structured', Nx=Nx, Ny=Ny, order=order, dim=dim)
+            if fam == 'edges':       # two pairs of symmetry planes: "left x + bottom y" then "right x + top y"
+                pats = [[(cs['left'], 0), (cs['bottom'], 1)], [(cs['right'], 0), (cs['top'], 1)], [(cs['left'], 1), (cs['top'], 0)]]
+            elif fam == 'clamp':     # clamped left edge, then clamped right edge, then bottom / top
+                pats = [[(cs['left'], 0), (cs['left'], 1)], [(cs['right'], 0), (cs['right'], 1)]]
+                if Nx == Ny:
+                    pats += [[(cs['bottom'], 0), (cs['bottom'], 1)], [(cs['top'], 0), (cs['top'], 1)]]
+            elif fam == 'mirror':    # a random pattern and its mirror image under x -> 1-x
+                p0 = _bc_pattern(r, cs['nNodes'], dim, r.choice(['single', 'random', 'overlap']))
+                pats = [p0, [(_mirror_nodes(cs, nodes), comp) for (nodes, comp) in p0]]
+            elif fam == 'shift':     # node n -> n+1: equal number of unknowns; the number of triplets may or may not agree (counted)
+                p0 = _bc_pattern(r, cs['nNodes'], dim, r.choice(['single', 'random']))
+                pats = [p0, [([(x + 1) % cs['nNodes'] for x in nodes], comp) for (nodes, comp) in p0]]
+            else:
+                pats = [_bc_pattern(r, cs['nNodes'], dim, r.choice(KINDS))]
+            steps = [dict(base, ebcs=p, kseed=ks()) for p in pats]
+            if fam == 'repeat':      # Newton iterations: one DofManager object, new element matrices every time
+                steps += [dict(base, ebcs=pats[0], kseed=ks(), reuse=0), dict(base, ebcs=pats[0], kseed=ks(), reuse=0)]
+            elif fam == 'rebuild':   # an equal DofManager built afresh (new object, same data)
+                steps += [dict(base, ebcs=pats[0], kseed=ks())]
+            else:                    # ... and back to the first DofManager object
+                steps += [dict(base, ebcs=pats[0], kseed=ks(), reuse=0)]
+        else:                        # transpose: an Nx x Ny and an Ny x Nx grid without BCs (equal sizes, different connectivity)
+            Nx = r.randrange(2, 5)
+            Ny = r.choice([y for y in range(2, 5) if y != Nx])
+            dim = r.choice([1, 2, 2, 3])
+            pat = [] if r.random() < 0.7 else [([0], r.randrange(dim))]
+            steps = [dict(src='structured', Nx=Nx, Ny=Ny, order=1, dim=dim, ebcs=pat, kseed=ks()),
+                     dict(src='structured', Nx=Ny, Ny=Nx, order=1, dim=dim, ebcs=pat, kseed=ks()),
+                     dict(src='structured', Nx=Nx, Ny=Ny, order=1, dim=dim, ebcs=pat, kseed=ks(), reuse=0)]
+        for s in steps:
+            s.setdefault('bcseed', 0)
+            s['kind'] = 'history'
+        hists.append(dict(stream='history', family=fam, kind='history/' + fam, dim=steps[0]['dim'], steps=steps))
+    return hists
+
+
+def element_matrices(step, nEl, nd):
+    """integer-valued, NON-symmetric element matrices (entries -9..9), flat row-major per element; deterministic in the step's kseed"""
+    import random
+    rr = random.Random(step['kseed'])
+    return [[rr.randrange(-9, 10) for _ in range(nd * nd)] for _ in range(nEl)]
+
+
+def reference_matrix(nNodes, dim, conns, declared, kvals):
+    """dense unknown-by-unknown matrix assembled by hand from the element matrices, the connectivity and the declared (node, component)
+    pairs; mirror of model/M_C14_Asm.v `assemble`: block entry (a, b) adds to (unknown number of dof b, unknown number of dof a),
+    unknowns numbered in node-major order over the non-essential dofs.  Nothing of DofManager is used."""
+    essential = set()
+    for (nodes, comp) in declared:
+        for nd_ in nodes:
+            essential.add((int(nd_), int(comp)))
+    unknown_of = {}
+    for nd_ in range(nNodes):
+        for c in range(dim):
+            if (nd_, c) not in essential:
+                unknown_of[(nd_, c)] = len(unknown_of)
+    nU = len(unknown_of)
+    K = [[0] * nU for _ in range(nU)]
+    for e, en in enumerate(conns):
+        dofs = [(int(nd_), c) for nd_ in en for c in range(dim)]
+        ndof = len(dofs)
+        for a, da in enumerate(dofs):
+            if da in essential:
+                continue
+            for b, db in enumerate(dofs):
+                if db in essential:
+                    continue
+                K[unknown_of[db]][unknown_of[da]] += kvals[e][a * ndof + b]
+    return K
+
+
+def run_history_impl(hist):
+    """run the whole history through the real DofManager + assemble_sparse_stiffness_matrix in this process, in order;
+    -> list of per-step dicts (python ints only)"""
+    import numpy as onp
+    import optimism  # noqa: F401
+    from optimism import FunctionSpace, SparseMatrixAssembler
+    outs, dms = [], []
+    for k, step in enumerate(hist['steps']):
+        dim = step['dim']
+        fs, nNodes, conns, ebcs = build(step)
+        if step.get('reuse') is not None:
+            dm = dms[step['reuse']]
+        else:
+            dm = FunctionSpace.DofManager(fs, dim, [FunctionSpace.EssentialBC(nodeSet=name, component=comp) for (name, _, comp) in ebcs])
+        dms.append(dm)
+        nEl, npe = len(conns), len(conns[0])
+        nd = npe * dim
+        kvals = element_matrices(step, nEl, nd)
+        kValues = onp.array(kvals, dtype=float).reshape(nEl, npe, dim, npe, dim)
+        K = SparseMatrixAssembler.assemble_sparse_stiffness_matrix(kValues, fs.mesh.conns, dm)
+        Kd = onp.asarray(K.toarray())
+        integral = bool(onp.all(Kd == onp.round(Kd)))
+        outs.append(dict(nNodes=nNodes, dim=dim, conns=conns, ebcs=ebcs, kvals=kvals, shape=[int(x) for x in Kd.shape],
+                         K=[[int(round(float(x))) for x in row] for row in Kd], integral=integral,
+                         sizes=(int(onp.asarray(dm.unknownIndices).size), int(onp.asarray(dm.HessRowCoords).size),
+                                tuple(int(x) for x in dm.hessian_bc_mask.shape)),
+                         maps=(tuple(int(x) for x in onp.asarray(dm.HessRowCoords)), tuple(int(x) for x in onp.asarray(dm.HessColCoords)),
+                               tuple(int(x) for x in onp.asarray(dm.hessian_bc_mask).ravel())),
+                         reuse=step.get('reuse')))
+    return outs
+
+
+def history_conclusions(hist, outs):
+    """-> list of (step index, message): assembled matrix k differs from the by-hand reference of request k"""
+    bad = []
+    for k, o in enumerate(outs):
+        declared = [(nodes, comp) for (_, nodes, comp) in o['ebcs']]
+        Kref = reference_matrix(o['nNodes'], o['dim'], o['conns'], declared, o['kvals'])
+        nU = len(Kref)
+        o['Kref'] = Kref
+        if o['shape'] != [nU, nU]:
+            bad.append((k, 'assembled matrix has shape %s, expected %s (unknown x unknown)' % (o['shape'], [nU, nU])))
+            continue
+        if not o['integral']:
+            bad.append((k, 'assembled matrix of integer element matrices has non-integer entries'))
+            continue
+        KrefT = [[Kref[j][i] for j in range(nU)] for i in range(nU)]
+        if o['K'] == Kref:
+            o['orientation'] = 'transposed (row = unknown of b)'
+        elif o['K'] == KrefT:
+            o['orientation'] = 'straight'          # the property text does not fix the orientation; L1 (model) pins it
+        else:
+            diffs = [(i, j) for i in range(nU) for j in range(nU) if o['K'][i][j] != Kref[i][j]]
+            i, j = diffs[0]
+            pat = sum(1 for i2 in range(nU) for j2 in range(nU) if (o['K'][i2][j2] != 0) != (Kref[i2][j2] != 0))
+            prev = ''
+            if k > 0:
+                same = [q for q in range(k) if outs[q]['sizes'] == o['sizes'] and outs[q]['maps'] != o['maps']]
+                if same:
+                    prev = '; assembly %d of this history used a DofManager with the same sizes %s but different index maps' % (same[-1], o['sizes'][:2])
+            bad.append((k, 'assembly %d of %d in one process: the assembled matrix differs from the unknown-by-unknown matrix assembled by hand from '
+                           'the element matrices, the connectivity and the declared BC pairs at %d of %d positions, e.g. K[%d,%d] = %d, by hand %d '
+                           '(%d positions non-zero in one and zero in the other)%s'
+                        % (k, len(outs), len(diffs), nU * nU, i, j, o['K'][i][j], Kref[i][j], pat, prev)))
+    return bad
+
+
+def history_model_expr(outs):
+    reqs = []
+    for o in outs:
+        ebcs = '[' + '; '.join('(%s, (%d))' % (zl(nodes), comp) for (_, nodes, comp) in o['ebcs']) + ']'
+        conns = '[' + '; '.join(zl(c) for c in o['conns']) + ']'
+        kv = '[' + '; '.join(zl(k) for k in o['kvals']) + ']'
+        reqs.append('mk_request (%d) (%d) %s %s %s' % (o['nNodes'], o['dim'], ebcs, conns, kv))
+    return 'run_history [' + '; '.join(reqs) + ']'
+
+
+def history_stream(ctx, model_ok, hists=None):
+    hists = hists if hists is not None else gen_histories(ctx)
+    fams, done = {}, []
+    for hist in hists:
+        ctx.count('history_sequences')
+        try:
+            outs = run_history_impl(hist)
+        except Exception as ex:
+            import traceback as _tb
+            fr = _tb.extract_tb(ex.__traceback__)[-1]
+            ctx.fail('conclusion', 'history %s: DofManager / assemble_sparse_stiffness_matrix raised %s: %s at %s:%d on a valid sequence of assemblies'
+                     % (hist['family'], type(ex).__name__, str(ex)[:200], fr.filename.split('/')[-1], fr.lineno), case=hist, concrete=True)
+            continue
+        fams[hist['family']] = fams.get(hist['family'], 0) + 1
+        ctx.count('evaluations', len(outs))
+        ctx.count('history_assemblies', len(outs))
+        for k, o in enumerate(outs):
+            if o['reuse'] is not None:
+                ctx.count('history_repeated_assemblies_same_dofmanager')
+            if any(outs[q]['sizes'] == o['sizes'] and outs[q]['maps'] != o['maps'] for q in range(k)):
+                ctx.count('history_assemblies_after_equal_sizes_different_maps')
+        bad = history_conclusions(hist, outs)
+        ctx.count('conclusion_checks', len(outs))
+        for (k, msg) in bad[:2]:
+            o = outs[k]
+            ctx.fail('conclusion', 'history %s (%d nodes, dim %d, %d elements, BC pairs %s): %s'
+                     % (hist['family'], o['nNodes'], o['dim'], len(o['conns']), str([(n, c) for (_, n, c) in o['ebcs']])[:160], msg),
+                     case=hist, concrete=True)
+        done.append((hist, outs))
+    ctx.cov['history_families'] = fams
+    if done:
+        o = done[0][1][-1]
+        ctx.sample(dict(stream='history', family=done[0][0]['family'], assemblies=len(done[0][1]), nNodes=o['nNodes'], dim=o['dim'],
+                        sizes=list(o['sizes'][:2]), orientation=o.get('orientation'), K_row0=o['K'][0][:8] if o['K'] else []))
+    if not model_ok or not done:
+        return
+    res = C.coq_eval(IMPORTS_ASM, [history_model_expr(outs) for (_, outs) in done], 'C14h', shard=ctx.n(4, 8), timeout=900)
+    nm = 0
+    for (hist, outs), zs in zip(done, res):
+        mats = unpack(zs)
+        ctx.count('model_vs_impl_comparisons', len(outs))
+        if len(mats) != len(outs):
+            nm += 1
+            ctx.fail('correspondence', 'history %s: the model returned %d matrices for %d assemblies' % (hist['family'], len(mats), len(outs)), case=hist)
+            continue
+        for k, (o, m) in enumerate(zip(outs, mats)):
+            flat = [x for row in o['K'] for x in row]
+            if list(m) != flat:
+                nm += 1
+                ctx.fail('correspondence', 'history %s, assembly %d of %d: model `assemble` (M_C14_Asm.v) and assemble_sparse_stiffness_matrix disagree '
+                         '(%d nodes, dim %d): model %s... impl %s...' % (hist['family'], k, len(outs), o['nNodes'], o['dim'], str(list(m))[:100], str(flat)[:100]),
+                         case=hist)
+                break
+    ctx.count('history_model_vs_impl_mismatches', nm)
+
+
 # ----------------------------------------------------------------------------- L2: theorem conclusions on the implementation's arrays
 
 def conclusions(o):
@@ -381,7 +652,12 @@ def slim(case):
     return {k: v for k, v in case.items()}
 
 
-def correspondence(ctx, model_ok, cases=None):
+def correspondence(ctx, model_ok, cases=None, hists=None):
+    history_stream(ctx, model_ok, hists)
+    single_stream(ctx, model_ok, cases)
+
+
+def single_stream(ctx, model_ok, cases=None):
     cases = cases if cases is not None else gen_cases(ctx)
     outs = []
     distinct = set()
@@ -441,7 +717,9 @@ def search(ctx, reasons):
     c2.seed = ctx.seed + 1
     # first the cases already implicated by a broken correspondence, then fresh ones
     pri = [r['case'] for r in reasons if r.get('case')]
-    correspondence(c2, False, cases=pri + gen_cases(c2)[:150])
+    prih = [c for c in pri if c.get('stream') == 'history']
+    pri = [c for c in pri if c.get('stream') != 'history' and 'src' in c]
+    correspondence(c2, False, cases=pri + gen_cases(c2)[:150], hists=prih + gen_histories(c2))
     conc = [f for f in c2.failures if f.get('concrete')]
     return conc[0] if conc else None
 
@@ -462,6 +740,22 @@ def replay(ctx, path):
     if not case:
         print('no concrete failing input recorded; broken obligations:', rep.get('broken'))
         return 1
+    if case.get('stream') == 'history':
+        try:
+            outs = run_history_impl(case)
+        except Exception as ex:
+            print('implementation raises on this sequence of assemblies:', repr(ex)[:300])
+            return 1
+        bad = history_conclusions(case, outs)
+        print('assembled matrices vs the by-hand reference now:', [m for (_, m) in bad] or 'equal for all %d assemblies' % len(outs))
+        mism = []
+        try:
+            zs = C.coq_eval(IMPORTS_ASM, [history_model_expr(outs)], 'C14hr')[0]
+            mism = [k for k, (o, m) in enumerate(zip(outs, unpack(zs))) if list(m) != [x for row in o['K'] for x in row]]
+            print('model `assemble` vs implementation now:', ('differ at assemblies %s' % mism) if mism else 'agree')
+        except Exception as ex:  # model not built
+            print('model could not be evaluated:', str(ex)[:300])
+        return 1 if (bad or mism) else 0
     try:
         o = run_impl(case)
     except Exception as ex:
